@@ -333,6 +333,46 @@ PanicMail ==
   /\ st' = ClosedSt(st)
   /\ Emit(Cmd("MAIL", "panic"), <<R(421, <<4, 0, 0>>)>>, <<CB("Mail", st.sess)>> \o CloseCbs(st))
 
+\* The peer disconnects inside the message of an accepted DATA command (any
+\* octet offset after the 354, the end marker itself included).  The backend
+\* reads everything it can and passes the reader's error on: the reader fails
+\* (never end-of-file), the final reply is negative, then the connection ends.
+DataCut ==
+  /\ InCmdMode /\ "cut" \in Alphabet
+  /\ st.bdat = "none" /\ ~st.binarymime /\ st.from /\ st.nrcpt > 0
+  /\ st' = ClosedSt(st)
+  /\ Emit(Cmd("DATACUT", ""), <<R(354, <<>>)>> \o Finals(R(554, <<5, 0, 0>>)),
+          <<CB(DataName \o ".begin", st.sess), CB(DataName \o ".end:err", st.sess),
+            CB("Reset", st.sess), CB("Logout", st.sess)>>)
+
+\* The peer disconnects inside the payload of an accepted BDAT command: the
+\* chunk is incomplete, so the transfer fails however many octets arrived -
+\* the backend's reader gets the abort error, never end-of-file, also when
+\* the chunk was declared LAST.
+BdatCut(n, lastc, p, some) ==
+  LET cmd == CmdB("BDATCUT", IF some THEN "some" ELSE "none", n, lastc, p)
+      dn == DataName
+      first == st.bdat = "none"
+      begin == IF first THEN <<CB(dn \o ".begin", st.sess)>> ELSE <<>>
+      dead == st.bdat = "dead" \/ (first /\ p = "early")
+      earlyEnd == IF first /\ p = "early" THEN <<CB(dn \o ".end:none", st.sess)>> ELSE <<>>
+  IN
+  /\ InCmdMode /\ "cut" \in Alphabet
+  /\ n \in ChunkSizes /\ n > 0
+  /\ st.from /\ st.nrcpt > 0
+  /\ ~(cfg.maxBytes > 0 /\ st.bytes + n > cfg.maxBytes)
+  /\ (first <=> p # "")
+  /\ st' = ClosedSt(st)
+  /\ IF dead /\ some
+     THEN \* the backend had already failed: the first octet of the chunk meets
+          \* its error, which is reported; nothing is presented as complete
+          Emit(cmd, IF lastc THEN Finals(BdatFinalErr) ELSE <<BdatFinalErr>>,
+               begin \o earlyEnd \o <<CB("Reset", st.sess), CB("Logout", st.sess)>>)
+     ELSE \* the command never completed: no reply, the transfer is aborted
+          Emit(cmd, <<>>,
+               begin \o (IF dead THEN earlyEnd ELSE <<CB(dn \o ".end:abort", st.sess)>>)
+                 \o <<CB("Reset", st.sess), CB("Logout", st.sess)>>)
+
 \* whatever was pipelined behind the step that closed the connection is
 \* never executed (properties C08, C19)
 AfterClose ==
@@ -425,6 +465,8 @@ Next ==
   \/ Rset \/ Noop \/ Vrfy \/ Unimpl
   \/ \E v \in {"unknown", "empty", "short", "nospace"} : BadLine(v)
   \/ Quit \/ PeerClose \/ LongLine \/ PanicMail \/ AfterClose
+  \/ DataCut
+  \/ \E n \in ChunkSizes, l \in BOOLEAN, p \in {"", "acc", "rej", "early"}, some \in BOOLEAN : BdatCut(n, l, p, some)
   \/ \E ir \in {"none", "empty", "bytes"}, nchal \in 0..2, fin \in {"ok", "fail"} : AuthStart(ir, nchal, fin)
   \/ AuthNoArg
   \/ \E v \in {"badir", "unkmech"} : AuthBad(v)
@@ -516,6 +558,8 @@ ReplyCountOK(l, preSt) ==
     [] l.cmd.c = "BDAT" /\ l.cmd.l /\ l.cmd.a = "" /\ l.replies[1].code \in {250, 554} ->
          n = (IF cfg.lmtp THEN preSt.nrcpt ELSE 1)
     [] l.cmd.c = "BAD" /\ preSt.errCount = MaxErr -> n = 2 /\ l.replies[2].code = 500
+    [] l.cmd.c = "DATACUT" -> n = 1 + (IF cfg.lmtp THEN preSt.nrcpt ELSE 1)
+    [] l.cmd.c = "BDATCUT" -> n = 0 \/ n = (IF cfg.lmtp /\ l.cmd.l THEN preSt.nrcpt ELSE 1)
     [] OTHER -> n = 1
 
 C04_ReplyCount == [][ReplyCountOK(last', st)]_vars
@@ -534,6 +578,13 @@ C07_PositiveOnlyAfterEOF ==
   [][ (last'.cmd.c \in {"DATA", "BDAT"} /\ \E i \in DOMAIN last'.replies :
           last'.replies[i].code = 250 /\ (last'.cmd.c = "DATA" \/ last'.cmd.l))
       => (\E i \in DOMAIN last'.cbs : last'.cbs[i].n \in {"Data.end:eof", "LMTPData.end:eof", "Data.end:none", "LMTPData.end:none"})
+    ]_vars
+
+\* a transfer cut short by a disconnect is never complete
+C07_CutNeverComplete ==
+  [][ last'.cmd.c \in {"DATACUT", "BDATCUT"} =>
+        /\ \A i \in DOMAIN last'.replies : last'.replies[i].code \div 100 # 2
+        /\ \A i \in DOMAIN last'.cbs : last'.cbs[i].n \notin {"Data.end:eof", "LMTPData.end:eof"}
     ]_vars
 
 \* C08: at most one Logout per session; after close every session is logged out,
